@@ -69,6 +69,17 @@ FileHDF5::FileHDF5(const string &name, FileMode mode, Compression compression, O
         throw H5Exception("Could not open/create file");
     }
 
+    if (mode == FileMode::ReadOnly) {
+        // HDF5 shares a file that is already open in this process: if it is open for writing the
+        // new handle would be writable as well, whatever was asked for
+        unsigned intent = 0;
+        if (H5Fget_intent(hid, &intent) >= 0 && (intent & H5F_ACC_RDWR)) {
+            H5Fclose(hid);
+            hid = H5I_INVALID_HID;
+            throw H5Exception("Could not open file read-only: it is open for writing in this process");
+        }
+    }
+
     openRoot();
     if (is_create) {
         createHeader();
